@@ -84,16 +84,36 @@ impl CheckDef for EmitMc {
     }
 }
 
+/// listeners whose request queue overflows: the RESET replies are emitted by the dispatcher, not by a connection
+pub struct EmitBacklog;
+impl CheckDef for EmitBacklog {
+    type Case = crate::props::c13::Case;
+    const NAME: &'static str = "emit-backlog";
+    fn strategy(tier: Tier) -> BoxedStrategy<Self::Case> {
+        <crate::props::c13::Backlog as CheckDef>::strategy(tier)
+    }
+    fn run(case: &Self::Case, trace: bool) -> Outcome {
+        let res = mc::run(&case.mc, trace);
+        let mut o = judge(&res.preds, &res.log);
+        if !o.is_violation() {
+            o.nontrivial = o.labels.contains(&"reset_emitted");
+        }
+        o
+    }
+}
+
 pub fn run(ctx: &mut Ctx) {
-    ctx.rule("(iii) emitters: lossy end-to-end transfers (SACKs, FINs, probes), a socket under hostile traffic (RESET replies, SACKs for damaged arrival orders, handshake answers to crafted SYNs) and concurrent connect/accept workloads (many ids between the same addresses). Every datagram a real socket sends is parsed by the independent reference parser inside the simulator: accepted, version 1, payload exactly on data packets, and a connection id that a SYN between the two addresses justifies for that direction (SYN id + 1 from the initiator, SYN id from the acceptor). non-trivial = >= 10 emissions incl. a selective ack; distinct by hash of (type, extensions, length) sequence");
+    ctx.rule("(iii) emitters: lossy end-to-end transfers (SACKs, FINs, probes), a socket under hostile traffic (RESET replies, SACKs for damaged arrival orders, handshake answers to crafted SYNs) concurrent connect/accept workloads (many ids between the same addresses) and listeners whose request queue overflows (RESET replies from the dispatcher). Every datagram a real socket sends is parsed by the independent reference parser inside the simulator: accepted, version 1, payload exactly on data packets, and a connection id that a SYN between the two addresses justifies for that direction (SYN id + 1 from the initiator, SYN id from the acceptor). non-trivial = >= 10 emissions incl. a selective ack; distinct by hash of (type, extensions, length) sequence");
     ctx.replay_corpus::<EmitE2e>();
     ctx.replay_corpus::<EmitSp>();
     ctx.replay_corpus::<EmitMc>();
+    ctx.replay_corpus::<EmitBacklog>();
     ctx.run_generated::<EmitE2e>(ctx.tier.pick(8_000, 300_000));
     ctx.run_generated::<EmitSp>(ctx.tier.pick(10_000, 300_000));
     ctx.run_generated::<EmitMc>(ctx.tier.pick(8_000, 300_000));
+    ctx.run_generated::<EmitBacklog>(ctx.tier.pick(4_000, 150_000));
 }
 
 pub fn replay(v: &Value) -> Option<i32> {
-    replay_file::<EmitE2e>("C11", v).or_else(|| replay_file::<EmitSp>("C11", v)).or_else(|| replay_file::<EmitMc>("C11", v))
+    replay_file::<EmitE2e>("C11", v).or_else(|| replay_file::<EmitSp>("C11", v)).or_else(|| replay_file::<EmitMc>("C11", v)).or_else(|| replay_file::<EmitBacklog>("C11", v))
 }
